@@ -21,6 +21,41 @@ class Undecided(Exception):
     pass
 
 
+# spec lemmas over the reference channel (contracts/spec_*.rs): lemma name -> (obligation id, properties)
+LEMMAS = {
+    "lemma_wf_abstract": ("L-WF.abstract", ["C03", "C08"]),
+    "lemma_L_WF": ("L-WF", ["C03", "C08", "C02"]),
+    "lemma_L_FIFO": ("L-FIFO", ["C02"]),
+    "lemma_L_CONS": ("L-CONS", ["C01"]),
+    "lemma_L_CAP": ("L-CAP", ["C08"]),
+    "lemma_L_CLOSED": ("L-CLOSED", ["C10"]),
+    "lemma_L_DISC": ("L-DISC", ["C11"]),
+    "lemma_L_COUNT": ("L-COUNT", ["C12"]),
+    "lemma_mutex_step": ("L-MUTEX", ["C17"]),
+}
+
+
+def scan_lemmas(rs_text):
+    """[(start_line, end_line, name)] of the proof fns in the spec part of a woven unit"""
+    out = []
+    lines = rs_text.splitlines()
+    cur = None
+    for i, l in enumerate(lines, 1):
+        if "woven from the working tree (kweave)" in l:
+            break
+        m = re.match(r"\s*pub proof fn (lemma_\w+)", l)
+        if m:
+            if cur:
+                out.append((cur[0], i - 1, cur[1]))
+            cur = (i, m.group(1))
+        elif cur and re.match(r"^(pub |// =====|impl|#\[)", l):
+            out.append((cur[0], i - 1, cur[1]))
+            cur = None
+    if cur:
+        out.append((cur[0], len(lines), cur[1]))
+    return out
+
+
 def weaver_bin(here):
     b = os.path.join(here, "weave", "target", "release", "kweave")
     src_m = max(os.path.getmtime(os.path.join(here, "weave", "src", f)) for f in os.listdir(os.path.join(here, "weave", "src")))
@@ -97,6 +132,7 @@ def classify(res, wmap, rs_text, unit):
     lines = rs_text.splitlines()
     obs = wmap["obligations"]
     tags = scan_tags(rs_text)
+    lemmas = scan_lemmas(rs_text)
     funcs = [f for f in wmap["functions"] if f.get("woven") and "out_line" in f]
     line_src = wmap["line_src"]
 
@@ -181,7 +217,16 @@ def classify(res, wmap, rs_text, unit):
                 exit_text = src_line_text(src, wmap)
             else:
                 exit_text = lines[where["line_start"] - 1].strip()
-        if ob is not None:
+        lem = None
+        if ob is None and tag is None:
+            for sp in prim + sec:
+                for (a, b, name) in lemmas:
+                    if a <= sp["line_start"] <= b and name in LEMMAS:
+                        lem = name
+        if lem is not None:
+            fid, fprops, kind, text = LEMMAS[lem][0], LEMMAS[lem][1], "spec-lemma", lem
+            func = lem
+        elif ob is not None:
             fid, fprops, kind = ob["id"], ob["props"], ob["kind"]
             text = ob["text"]
         elif tag is not None:
@@ -411,6 +456,7 @@ def run_property(here, repo, prop, cfg, tier, seed, tmp, t0):
     for u in units:
         results[u] = verify_unit(here, repo, u, tmp, seed, tier)
     all_obs, failed, known_hits, violations = [], [], [], []
+    lemma_obs = []
     fn_list, rewrites, uncontracted = [], [], []
     smt_ms = 0.0
     wall_verus = 0.0
@@ -435,6 +481,10 @@ def run_property(here, repo, prop, cfg, tier, seed, tmp, t0):
                 fn_list.append({"func": f["func"], "src": "/repo/src/%s:%d-%d" % (f["file"], f["src_line"], f["src_end_line"]),
                                 "unit": u, "woven": f.get("woven", False), "smt_ms": t.get("time"), "rlimit": t.get("rlimit"),
                                 "backend": "verus/z3" if f.get("woven") else "kweave AST shape match"})
+        for (a, b, name) in scan_lemmas(r["rs_text"]):
+            if name in LEMMAS and prop in LEMMAS[name][1]:
+                lemma_obs.append({"obligation": LEMMAS[name][0], "kind": "spec-lemma", "function": name, "unit": u, "backend": "verus/z3",
+                                  "clause": "proof fn %s in contracts/spec_%s.rs (pure proof over the reference channel)" % (name, u)})
         rewrites += [dict(x, unit=u) for x in wmap["rewrites"]]
         uncontracted += [dict(x, unit=u) for x in wmap["uncontracted"]]
         try:
@@ -499,10 +549,11 @@ def run_property(here, repo, prop, cfg, tier, seed, tmp, t0):
         violations.append((f, rp))
 
     failed_ob_keys = set((f.get("unit"), f.get("ob_idx")) for f in failed if f.get("ob_idx") is not None)
-    n_obs = len(all_obs) + len(extra_obs)
+    n_obs = len(all_obs) + len(extra_obs) + len(lemma_obs)
     n_failed_named = len([1 for (u, o) in all_obs if (u, o["idx"]) in failed_ob_keys]) + len(set(f["id"] + f["func"] for f in extra_failed))
     # implicit failures (overflow / panic) count as one extra undischarged obligation each
     n_implicit = len(set((f["id"], f["func"], f["exit_text"]) for f in failed if f["kind"] in ("implicit", "trusted-leaf-requires")))
+    n_failed_named += len(set(f["func"] for f in failed if f["kind"] == "spec-lemma"))
     n_total = n_obs + n_implicit
     n_disch = n_obs - n_failed_named
 
@@ -536,6 +587,7 @@ def run_property(here, repo, prop, cfg, tier, seed, tmp, t0):
             "functions_not_under_contract": uncontracted,
             "bounded_stand_ins": extra_bounded,
             "kani_harnesses": extra_obs,
+            "spec_lemmas": lemma_obs,
             "kani_tool_artefacts_ignored": kani_artefacts,
             "known_findings_hit": [k.get("_line") for (_, k) in known_hits],
             "assumption_scan": scan_assumptions(results),
